@@ -135,6 +135,10 @@ def buildGlobalDynamic (static : Bool) (cm : GlobalCM) : Bits :=
     pw := static || allowOf cm.pw
     svc := allowOf cm.svc }
 
+/-- `services.setup`: `&DynamicConfig{StaticCrossNamespaceSecrets: cfg.AllowCrossNamespace}` — the
+four permissions start as false, whatever the command line says -/
+def initialBits : Bits := Bits.none
+
 /-! ## Reference sites -/
 
 /-- `ConfigValue.NamespacedName` with a non-nil source in namespace `src` -/
@@ -157,11 +161,14 @@ inductive Site
   | authSecret
   /-- `auth-url: svc://[ns/]name:port` (Backend scope; backend or frontend placement) -/
   | authURL
+  /-- Gateway `listeners[].tls.certificateRefs[].name`: gateway.go `readCertRef` -/
+  | gwCert
 deriving DecidableEq, Repr, Inhabited
 
 /-- the resource kind the DOCUMENTATION assigns to the site (keys.md "Cross Namespace") -/
 def Site.kind : Site → Kind
   | .tls => .crt
+  | .gwCert => .crt
   | .secureCrt => .crt
   | .authTLS => .ca
   | .secureCA => .ca
@@ -170,6 +177,7 @@ def Site.kind : Site → Kind
 
 def Site.getter : Site → Getter
   | .tls => .tls
+  | .gwCert => .tls
   | .secureCrt => .tls
   | .authTLS => .ca
   | .secureCA => .ca
@@ -182,6 +190,7 @@ annotated object and the raw value (`authURL`: the `[ns/]name` part of the URL).
 def siteArgs (s : Site) (src value : Str) : Option (Str × Str) :=
   match s with
   | .tls => some (src, value)
+  | .gwCert => some (src, value)
   | .authTLS => some (src, value)
   | .authSecret => some (src, value)
   | .authURL => some (src, value)
@@ -195,6 +204,12 @@ def siteResolve (s : Site) (b : Bits) (src value : Str) : Res :=
   match siteArgs s src value with
   | none => .invalid
   | some (dns, name) => getterResolve s.getter b dns name
+
+/-- `converters.Sync` runs the Gateway converter BEFORE the ingress converter, and it is the
+ingress converter's `syncFull` that calls `UpdateGlobalConfig` → `buildGlobalDynamic`: Gateway
+sites see the permissions computed by the PREVIOUS reconciliation (`prev`), the ingress sites
+the ones of the current global ConfigMap (`cur`). -/
+def bitsSeenBy (s : Site) (prev cur : Bits) : Bits := if s = .gwCert then prev else cur
 
 /-- state of the haproxy model the two shortcut sites look at -/
 structure Existing where
@@ -225,6 +240,8 @@ def siteUses (s : Site) (b : Bits) (ex : Existing) (fromIngress : Bool) (src val
     match namespacedName src value with
     | none => .invalid
     | some (ns, n) =>
+      -- "a globally configured auth-url is missing the namespace"
+      if ns = [] then .invalid else
       let prebuilt := fromIngress && (match siteResolve s b src value with | .obj _ _ => true | _ => false)
       if prebuilt || ex.backend ns n then .obj ns n
       else (match siteResolve s b src value with | .obj _ _ => .invalid | r => r)
